@@ -19,12 +19,28 @@ Line protocol (stateful; one answer per line):
   kinit | ko <x> <v> | kj <x> <j> | kget <x>    shared full cache with Jacobians: reset / cache_outputs /
                                   cache_jacobian -> `last=<i> e=<x:out:jac;...>` ; look-up -> `x:out:jac` or `_`
         spec may also be Q:a:b:c:<fail inputs>:<stop inputs>   (x ↦ a*x^2+b*x+c)
+  einit <threaded 0|1> <nProcs> <objects v:f:w;...|[]> <tasks spec;...|[]>
+        executor of discipline tasks (`_Functor.__call__` on discipline objects, Model §6); object = value of the
+        array it holds : failed 0|1 : writable 0|1; task spec = j:own:kind:c:a:b:fault with j the object of the main
+        process the task runs on, own = its own input | _ (the array the object holds), kind E|L|X (execute /
+        linearize / linearize with execute=False), c = in-place factor | _, output a*x+b (Jacobian a),
+        fault o|r|j|R|J (none / `_run` raises / `_compute_jacobian` raises; capital: a re-raised class)
+        -> state mem=<v:f:w;...>     (the S/T/F/C/X/result lines then drive this executor)
+  ecall <tasks>                   next execute() on the same executor: threads keep the objects as the previous call
+                                  left them, forked workers start again from the objects of the main process
 state = p=.. qi=.. w=.. qo=.. ord=.. cb=.. n=.. stop=.. last=.. sent=.. col=..
 -/
 
 structure DSt where
   sess : Option (Sess Rat Rat)
   jc : JCache Rat Rat Rat
+  /-- The executor of discipline tasks (Model §6), when the last `init`-like line was `einit`. -/
+  eff : Option (ECfg ObjSt Rat × EState ObjSt Rat) := none
+  effMode : Bool := false
+  ethr : Bool := true
+  enp : Nat := 1
+  /-- The objects of the main process. -/
+  emain : List ObjSt := []
 
 abbrev St := DSt
 
@@ -82,7 +98,62 @@ def doSOp (st : St) (op : SOp Rat) : St × String :=
     | some se' => ({ st with sess := some se' }, showState se'.st)
     | none => (st, "disabled")
 
-def doOp (st : St) (op : Op) : St × String := doSOp st (.op op)
+def showObj (o : ObjSt) : String :=
+  s!"{showRat o.val}:{if o.failed then 1 else 0}:{if o.writable then 1 else 0}"
+
+def showEState (s : EState ObjSt Rat) : String :=
+  showState s.pool ++ " mem=" ++ showList (s.mem.map showObj) ";"
+
+def parseBit (s : String) : Option Bool :=
+  if s = "1" then some true else if s = "0" then some false else none
+
+def parseObj (s : String) : Option ObjSt :=
+  match s.splitOn ":" with
+  | [v, f, w] =>
+    match parseRat? v, parseBit f, parseBit w with
+    | some v, some f, some w => some ⟨v, f, w⟩
+    | _, _, _ => none
+  | _ => none
+
+def parseObjs (s : String) : Option (List ObjSt) :=
+  if s = "[]" then some [] else (s.splitOn ";").mapM parseObj
+
+def parseORatU (s : String) : Option (Option Rat) :=
+  if s = "_" then some none else (parseRat? s).map some
+
+def parseTask (s : String) : Option (Nat × DiscCall) :=
+  match s.splitOn ":" with
+  | [j, own, kind, c, a, b, fault] =>
+    let kind? : Option CallKind :=
+      if kind = "E" then some .exec else if kind = "L" then some .lin else if kind = "X" then some .linNoExec else none
+    let fault? : Option (Fault × Bool) :=
+      if fault = "o" then some (.none, false) else if fault = "r" then some (.run, false)
+      else if fault = "j" then some (.jac, false) else if fault = "R" then some (.run, true)
+      else if fault = "J" then some (.jac, true) else none
+    match j.toNat?, parseORatU own, kind?, parseORatU c, parseRat? a, parseRat? b, fault? with
+    | some j, some own, some kind, some c, some a, some b, some (fl, rr) =>
+      some (j, { kind := kind, own := own, scale := c, a := a, b := b, fault := fl, reraised := rr })
+    | _, _, _, _, _, _, _ => none
+  | _ => none
+
+def parseTasks (s : String) : Option (List (Nat × DiscCall)) :=
+  if s = "[]" then some [] else (s.splitOn ";").mapM parseTask
+
+def startEff (st : St) (thr : Bool) (np : Nat) (main : List ObjSt) (tasks : List (Nat × DiscCall)) : St × String :=
+  let ec := discECfg thr main.length np tasks
+  let s0 := einit ec (discMem thr main tasks.length np)
+  ({ st with eff := some (ec, s0), effMode := true, ethr := thr, enp := np, emain := main }, showEState s0)
+
+def doEOp (st : St) (op : Op) : St × String :=
+  match st.eff with
+  | none => (st, "no-init")
+  | some (ec, s) =>
+    match estep? ec s op with
+    | some s' => ({ st with eff := some (ec, s') }, showEState s')
+    | none => (st, "disabled")
+
+def doOp (st : St) (op : Op) : St × String :=
+  if st.effMode then doEOp st op else doSOp st (.op op)
 
 def showJEntry (e : JEntry Rat Rat Rat) : String :=
   showRat e.key ++ ":" ++ showORat e.out ++ ":" ++ showORat e.jac
@@ -99,8 +170,20 @@ def answer (st : St) (line : String) : St × String :=
     match np.toNat?, parseRatList? ins, parseCallables cs with
     | some np, some ins, some cs =>
       let c : Cfg Rat Rat := ⟨ins, cs, np⟩
-      ({ st with sess := some (sinit c) }, showState (init c))
+      ({ st with sess := some (sinit c), effMode := false }, showState (init c))
     | _, _, _ => (st, "bad-init")
+  | ["einit", thr, np, objs, tasks] =>
+    match parseBit thr, np.toNat?, parseObjs objs, parseTasks tasks with
+    | some thr, some np, some objs, some tasks => startEff st thr np objs tasks
+    | _, _, _, _ => (st, "bad-init")
+  | ["ecall", tasks] =>
+    match st.eff, parseTasks tasks with
+    | some (_, s), some tasks =>
+      if st.effMode && s.pool.final then
+        -- threads: the objects are those of the main process, left as the call left them
+        startEff st st.ethr st.enp (if st.ethr then s.mem else st.emain) tasks
+      else (st, "disabled")
+    | _, _ => (st, "bad-op")
   | ["S"] => doOp st .submit
   | ["T", w] => match w.toNat? with | some w => doOp st (.take w) | none => (st, "bad-op")
   | ["F", w] => match w.toNat? with | some w => doOp st (.finish w) | none => (st, "bad-op")
@@ -128,10 +211,11 @@ def answer (st : St) (line : String) : St × String :=
     | some x => (st, match jLookup st.jc.entries x with | some e => showJEntry e | none => "_")
     | none => (st, "bad-op")
   | ["result"] =>
-    match st.sess with
+    let pool? : Option (State Rat) :=
+      if st.effMode then st.eff.map (fun p => p.2.pool) else st.sess.map (fun se => se.st)
+    match pool? with
     | none => (st, "no-init")
-    | some se =>
-      let s := se.st
+    | some s =>
       let r := match s.result with
         | .raised => "raised"
         | .returned o => "returned " ++ showORats o
